@@ -120,7 +120,7 @@ def framing_part(ck, rnd, scale):
 
 def run(ck):
     vlib.import_repo()
-    ck.build(["framing", "brokerclient", "brokerclienthook", "brokerclientwrite"])
+    ck.build(["framing", "brokerclient", "brokerclienthook", "brokerclientwrite", "brokerclientsync"])
     ck.props()
     rnd = random.Random(ck.seed)
     thorough = ck.tier == "thorough"
@@ -139,6 +139,9 @@ def run(ck):
     if thorough:
         items = L.generate(ck, rnd, 300, ["c06"], [400, 800])
         L.evaluate(ck, "long generated histories (400-800 events)", items, WHICH, THEOREMS_BC, L.nontrivial_c06, rnd)
+
+    # ---- endpoints whose connect() completes synchronously (success and failure), then idle drops, new requests, close()
+    L.sync_connect_part(ck, rnd, 300 * scale, THEOREMS_BC)
 
     # ---- callbacks re-entering the client from a reply callback (tail position of handleResponse)
     L.reentrant_part(ck, rnd, 500 * scale, THEOREMS_BC)
@@ -200,6 +203,8 @@ def replay(rp):
         return L.replay_tree(rp)
     if op == "bc-write":
         return L.replay_write(rp)
+    if op == "bc-sync":
+        return L.replay_sync(rp)
     if op == "send-raises":
         sr = L.probe_send_raises()
         print("probe now:", sr or "as expected")
